@@ -78,126 +78,325 @@ def str_dict(node):
 # ---------------------------------------------------------------------------
 # lock skeletons (C18)
 # ---------------------------------------------------------------------------
+# A snapshot operation is abstracted to the set of its control-flow PATHS; a
+# path is a list of events  A(cquire) L(release) R(ead) ("C", method).
+#   A/L  `with subject:` only (explicit subject.__enter__()/__exit__() or subject._lock.acquire()/release() are
+#        refused: without try/finally an exception would leave the lock held)
+#   R    any read of the subject's node structure: a structural attribute or
+#        method of the subject, iteration over the subject, and every use of a
+#        value *derived* from such a read (helper chains `self._root._add_from(..)`,
+#        loop variables ranging over it, names assigned from it) - consecutive
+#        reads are collapsed, the bracket discipline does not depend on how many
+#   C    re-entering another snapshot operation on the same object: a method in
+#        SNAPSHOT_METHODS called on the subject / super(), or a delegate
+#        function that receives the subject as positional or keyword argument
+# Control flow: an `if` forks the path set when a branch contains events or
+# ends the function (return/raise); loops may only contain reads (collapsed);
+# `try`, nested functions that mention the subject, aliases of the subject,
+# unknown attributes/methods of the subject and the subject escaping into an
+# unknown callee are refused (Unsupported -> exit 2 -> obligations not
+# discharged).  Exceptional exits need no paths of their own: `with` releases
+# on every exit (explicit acquire/release calls are refused).
+#: attributes / methods of the tree object that never touch the node structure
 NON_STRUCTURAL = {"name", "DEFAULT_KEY_MAP", "DEFAULT_VALUE_MAP", "DEFAULT_CONNECTOR_STYLE", "__class__",
-                  "serialize_mapper", "deserialize_mapper", "calc_data_id", "_lock"}
-#: methods of the tree object that read the node structure (directly or below)
-STRUCT_CALLS = {"to_list_iter", "to_dot", "iterator", "__iter__", "_root", "system_root", "children",
-                "to_dict_list", "format", "format_iter", "_node_by_id", "_nodes_by_data_id", "find_all",
-                "find_first", "count", "first_child", "last_child", "visit", "to_rdf_graph", "copy_to"}
-#: calls that re-enter another snapshot operation on the same tree (the callee brackets itself)
-DELEGATES = {"save", "copy", "tree_to_dotfile"}
+                  "serialize_mapper", "deserialize_mapper", "calc_data_id"}
+#: attributes / methods of the tree object that are, or read, the node structure (value = live view)
+STRUCTURAL = {"_root", "system_root", "children", "_node_by_id", "_nodes_by_data_id", "to_list_iter", "to_dot",
+              "iterator", "__iter__", "iter_by_type", "format", "format_iter", "find_all", "find_first", "find",
+              "count", "count_unique", "first_child", "last_child", "get_toplevel_nodes", "visit", "to_rdf_graph",
+              "to_mermaid_flowchart", "__len__", "__getitem__", "__contains__", "calc_height", "get_random_node"}
+#: the snapshot operations (methods of Tree and of every subclass in the package that overrides them)
+SNAPSHOT_METHODS = ["copy", "copy_to", "filtered", "to_dict_list", "save", "to_dotfile", "tree_to_dotfile"]
+#: module-level functions that implement a snapshot operation for the tree they receive
+DELEGATE_FUNCS = {"tree_to_dotfile"}
+#: builtins that may receive the subject without reading its structure
+HARMLESS_BUILTINS = {"isinstance", "id", "type"}
+#: builtins that consume a live view completely and return a detached value
+MATERIALIZERS = {"list", "tuple", "set", "frozenset", "sorted", "dict", "len", "bool", "sum", "any", "all", "str", "repr"}
+MAX_PATHS = 32
 
 
 def lock_skeleton(fn: ast.FunctionDef, subject: str):
-    """Event list of a snapshot operation: A(cquire) R(ead) L(release) C(all op).
+    """All control-flow paths of a snapshot operation as event lists (see above)."""
+    tainted: set[str] = set()
 
-    An event R is emitted for every read of the subject's structure
-    (`subject._root`, iteration over `subject`, structural method calls),
-    A/L for `with subject:` brackets, C for delegation to another snapshot
-    operation of the same tree.  Nested function definitions are rejected."""
-    events: list[str] = []
+    def bad(msg, n=None):
+        raise Unsupported(f"lock skeleton of {fn.name}: {msg} (line {getattr(n, 'lineno', '?')})")
 
     def is_subject(n):
         return isinstance(n, ast.Name) and n.id == subject
 
     def is_super_call(n):
-        return isinstance(n, ast.Call) and isinstance(n.func, ast.Name) and n.func.id == "super"
+        return (isinstance(n, ast.Call) and isinstance(n.func, ast.Name) and n.func.id == "super"
+                and not n.args and not n.keywords)
 
-    def visit_expr(n):
+    def mentions_subject(n):
+        return any(isinstance(x, ast.Name) and (x.id == subject or x.id in tainted) for x in ast.walk(n))
+
+    def taint(target):
+        for x in ast.walk(target):
+            if isinstance(x, ast.Name):
+                tainted.add(x.id)
+
+    def subject_member(attr, n, ev, *, call):
+        if attr in ("__enter__", "__exit__"):
+            bad(f"explicit {subject}.{attr} in a snapshot operation (use `with {subject}:`)", n)
+        if attr in SNAPSHOT_METHODS:
+            if not call:
+                bad(f"bound method {attr} of {subject} taken without calling it", n)
+            ev.append(("C", attr))
+            return False
+        if attr in STRUCTURAL:
+            ev.append("R")
+            return True
+        if attr in NON_STRUCTURAL or attr.startswith("DEFAULT_"):
+            return False
+        bad(f"unknown attribute/method {attr} of {subject}", n)
+
+    def args_of(call, ev):
+        for a in call.args:
+            if not is_subject(a):
+                expr(a.value if isinstance(a, ast.Starred) else a, ev)
+        for k in call.keywords:
+            if not is_subject(k.value):
+                expr(k.value, ev)
+
+    def expr(n, ev) -> bool:
+        """Append the events of evaluating n; True iff the value is a live view of the structure."""
         if n is None:
-            return
+            return False
+        if isinstance(n, ast.Name):
+            if n.id == subject:
+                bad(f"{subject} escapes (alias, argument of an unknown callee, return value ...)", n)
+            if n.id in tainted and isinstance(n.ctx, ast.Load):
+                ev.append("R")
+                return True
+            return False
+        if isinstance(n, ast.Attribute):
+            if is_subject(n.value) or is_super_call(n.value):
+                if n.attr == "_lock":
+                    bad(f"{subject}._lock used other than by acquire()/release()", n)
+                return subject_member(n.attr, n, ev, call=False)
+            live = expr(n.value, ev)
+            if live:
+                ev.append("R")
+            return live
         if isinstance(n, ast.Call):
             f = n.func
-            # evaluate arguments first (Python order: func, then args)
             if isinstance(f, ast.Attribute) and (is_subject(f.value) or is_super_call(f.value)):
-                for a in n.args:
-                    visit_expr(a)
-                for k in n.keywords:
-                    visit_expr(k.value)
-                if f.attr in DELEGATES:
-                    events.append("C")
-                elif f.attr in STRUCT_CALLS:
-                    events.append("R")
-                elif f.attr in NON_STRUCTURAL or f.attr.startswith("DEFAULT_"):
-                    pass
+                args_of(n, ev)
+                return subject_member(f.attr, n, ev, call=True)
+            if (isinstance(f, ast.Attribute) and isinstance(f.value, ast.Attribute) and is_subject(f.value.value)
+                    and f.value.attr == "_lock"):
+                # explicit acquire()/release() pairs are refused: an exception between them leaves the
+                # lock held, and the path model below has no exceptional exits (`with` releases on all)
+                bad(f"explicit {subject}._lock.{f.attr}() in a snapshot operation (use `with {subject}:`)", n)
+            if any(is_subject(a) for a in n.args) or any(is_subject(k.value) for k in n.keywords):
+                if isinstance(f, ast.Name) and f.id in DELEGATE_FUNCS:
+                    args_of(n, ev)
+                    ev.append(("C", f.id))
+                    return False
+                if isinstance(f, ast.Name) and f.id in HARMLESS_BUILTINS:
+                    args_of(n, ev)
+                    return False
+                bad(f"{subject} passed to unknown callee", n)
+            live_f = expr(f, ev)
+            args_of(n, ev)
+            if isinstance(f, ast.Name) and f.id in MATERIALIZERS:
+                return False
+            return live_f  # a method of a live object returns a live value; f(live) a detached one
+        if isinstance(n, ast.FormattedValue) and is_subject(n.value):
+            return False  # repr(tree) shows class and name only
+        if isinstance(n, (ast.ListComp, ast.SetComp, ast.DictComp, ast.GeneratorExp)):
+            for g in n.generators:
+                if is_subject(g.iter):
+                    ev.append("R")
+                    live = True
                 else:
-                    raise Unsupported(f"{fn.name}: call of unknown method {f.attr} on {subject} (line {n.lineno})")
-                return
-            if isinstance(f, ast.Name) and f.id in DELEGATES and any(
-                    (isinstance(k.value, ast.Name) and k.value.id == subject) for k in n.keywords):
-                for a in n.args:
-                    visit_expr(a)
-                for k in n.keywords:
-                    visit_expr(k.value)
-                events.append("C")
-                return
+                    live = expr(g.iter, ev)
+                if live:
+                    taint(g.target)
+                for c in g.ifs:
+                    expr(c, ev)
+            for part in ([n.key, n.value] if isinstance(n, ast.DictComp) else [n.elt]):
+                expr(part, ev)
+            return isinstance(n, ast.GeneratorExp) and any(
+                is_subject(g.iter) or mentions_subject(g.iter) for g in n.generators)
+        if isinstance(n, ast.Lambda):
+            if mentions_subject(n):
+                bad("lambda closes over the tree or a live view", n)
+            return False
+        if isinstance(n, (ast.Compare, ast.Constant, ast.JoinedStr)) or (
+                isinstance(n, ast.UnaryOp) and isinstance(n.op, ast.Not)):
             for c in ast.iter_child_nodes(n):
-                visit_expr(c)
-            return
-        if isinstance(n, ast.Attribute) and is_subject(n.value):
-            if n.attr in STRUCT_CALLS:
-                events.append("R")
-            elif n.attr in NON_STRUCTURAL or n.attr.startswith("DEFAULT_"):
-                pass
-            else:
-                raise Unsupported(f"{fn.name}: unknown attribute {n.attr} of {subject} (line {n.lineno})")
-            # a chain like self._root._add_from(...) reads below
-            return
-        if isinstance(n, (ast.Lambda, ast.FunctionDef)):
-            raise Unsupported(f"{fn.name}: nested function")
+                if isinstance(c, ast.expr):
+                    expr(c, ev)
+            return False
+        live = False
         for c in ast.iter_child_nodes(n):
-            visit_expr(c)
+            if isinstance(c, ast.expr):
+                live = expr(c, ev) or live
+        return live
 
-    def visit_stmts(stmts):
+    def dedupe(paths):
+        out = []
+        for p in paths:
+            if p not in out:
+                out.append(p)
+        if len(out) > MAX_PATHS:
+            bad("too many control-flow paths")
+        return out
+
+    def block(stmts):
+        paths = [([], False)]
         for s in stmts:
-            if isinstance(s, ast.With):
-                items = s.items
-                if len(items) == 1 and is_subject(items[0].context_expr):
-                    events.append("A")
-                    visit_stmts(s.body)
-                    events.append("L")
-                    continue
-                for it in items:
-                    visit_expr(it.context_expr)
-                visit_stmts(s.body)
-            elif isinstance(s, ast.For):
-                if is_subject(s.iter):
-                    events.append("R")
+            if all(t for _, t in paths):
+                break  # unreachable code after return/raise on every path
+            alts = stmt(s)
+            new = []
+            for e, t in paths:
+                if t:
+                    new.append((e, t))
                 else:
-                    visit_expr(s.iter)
-                visit_stmts(s.body)
-                visit_stmts(s.orelse)
-            elif isinstance(s, (ast.If, ast.While)):
-                visit_expr(s.test)
-                visit_stmts(s.body)
-                visit_stmts(s.orelse)
-            elif isinstance(s, ast.Try):
-                visit_stmts(s.body)
-                for h in s.handlers:
-                    visit_stmts(h.body)
-                visit_stmts(s.orelse)
-                visit_stmts(s.finalbody)
-            elif isinstance(s, (ast.FunctionDef, ast.ClassDef)):
-                raise Unsupported(f"{fn.name}: nested definition {s.name}")
-            elif isinstance(s, ast.Expr) and isinstance(s.value, ast.Constant):
-                continue  # docstring
-            else:
-                for c in ast.iter_child_nodes(s):
-                    visit_expr(c)
+                    new.extend((e + e2, t2) for e2, t2 in alts)
+            paths = dedupe(new)
+        return paths
 
-    visit_stmts(fn.body)
-    # collapse runs of reads: the bracket discipline does not depend on how many
-    out = []
-    for e in events:
-        if e == "R" and out and out[-1] == "R":
+    def flat_reads_only(paths, what, n):
+        evs = [e for p, _ in paths for e in p]
+        if any(e != "R" for e in evs):
+            bad(f"lock event or snapshot call inside {what}", n)
+        return ["R"] if evs else []
+
+    def stmt(s):
+        if isinstance(s, (ast.With,)):
+            if any(is_subject(it.context_expr) for it in s.items):
+                if len(s.items) != 1 or s.items[0].optional_vars is not None:
+                    bad(f"`with {subject}` combined with other items or `as`", s)
+                return [(["A"] + e + ["L"], t) for e, t in block(s.body)]
+            pre = []
+            for it in s.items:
+                if expr(it.context_expr, pre) and it.optional_vars is not None:
+                    taint(it.optional_vars)
+            return [(pre + e, t) for e, t in block(s.body)]
+        if isinstance(s, (ast.For, ast.While)):
+            pre = []
+            if isinstance(s, ast.For):
+                if is_subject(s.iter):
+                    pre.append("R")
+                    live = True
+                else:
+                    live = expr(s.iter, pre)
+                if live:
+                    taint(s.target)
+            else:
+                expr(s.test, pre)
+            return [(pre + flat_reads_only(block(s.body) + block(s.orelse), "a loop", s), False)]
+        if isinstance(s, ast.If):
+            pre = []
+            expr(s.test, pre)
+            alts = block(s.body) + (block(s.orelse) if s.orelse else [([], False)])
+            if all(not e and not t for e, t in alts):
+                return [(pre, False)]
+            return dedupe([(pre + e, t) for e, t in alts])
+        if isinstance(s, (ast.Return, ast.Raise)):
+            pre = []
+            for c in ast.iter_child_nodes(s):
+                if isinstance(c, ast.expr):
+                    expr(c, pre)
+            return [(pre, True)]
+        if isinstance(s, ast.Try):
+            parts = block(s.body) + [p for h in s.handlers for p in block(h.body)] + block(s.orelse) + block(s.finalbody)
+            if any(e or t for e, t in parts):
+                bad("try statement around tree accesses or returns", s)
+            return [([], False)]
+        if isinstance(s, (ast.FunctionDef, ast.AsyncFunctionDef, ast.ClassDef)):
+            if mentions_subject(s):
+                bad(f"nested definition {s.name} closes over the tree", s)
+            return [([], False)]
+        if isinstance(s, ast.Expr) and isinstance(s.value, ast.Constant):
+            return [([], False)]  # docstring
+        if isinstance(s, (ast.Assign, ast.AugAssign, ast.AnnAssign)):
+            pre = []
+            live = expr(s.value, pre) if s.value is not None else False
+            for tg in (s.targets if isinstance(s, ast.Assign) else [s.target]):
+                if isinstance(tg, (ast.Name, ast.Tuple, ast.List)):
+                    if live:
+                        taint(tg)
+                else:
+                    expr(tg, pre)
+            return [(pre, False)]
+        if isinstance(s, (ast.Expr, ast.Assert, ast.Delete, ast.Pass, ast.Break, ast.Continue, ast.Import,
+                          ast.ImportFrom, ast.Global, ast.Nonlocal)):
+            pre = []
+            for c in ast.iter_child_nodes(s):
+                if isinstance(c, ast.expr):
+                    expr(c, pre)
+            return [(pre, False)]
+        bad(f"statement {type(s).__name__} not understood", s)
+
+    def collapse(evs):
+        out = []
+        for e in evs:
+            if e == "R" and out and out[-1] == "R":
+                continue
+            out.append(e)
+        return out
+
+    block(fn.body)            # first pass: collect the live names (taint is flow-insensitive)
+    paths = block(fn.body)    # second pass with the complete set
+    return dedupe([collapse(e) for e, _ in paths])
+
+
+def snapshot_table(modules, dot):
+    """(label, method, paths) for every snapshot operation: Tree's own methods, the
+    overrides in every subclass found in the package, and the delegate functions."""
+    classes = {}
+    for mod in modules:
+        for node in mod.body:
+            if isinstance(node, ast.ClassDef):
+                classes[node.name] = node
+    def is_tree_class(c, seen=()):
+        if c.name == "Tree":
+            return True
+        return any(isinstance(b, ast.Name) and b.id in classes and b.id not in seen
+                   and is_tree_class(classes[b.id], seen + (c.name,)) for b in c.bases)
+    table = []
+    for c in classes.values():
+        if not is_tree_class(c):
             continue
-        out.append(e)
-    return out
+        for node in c.body:
+            if isinstance(node, ast.Assign) and any(isinstance(t, ast.Name) and t.id in SNAPSHOT_METHODS + ["__enter__", "__exit__"] for t in node.targets):
+                raise Unsupported(f"{c.name}: snapshot operation bound by assignment (line {node.lineno})")
+            if not isinstance(node, (ast.FunctionDef, ast.AsyncFunctionDef)):
+                continue
+            if node.name in ("__enter__", "__exit__") and c.name != "Tree":
+                raise Unsupported(f"{c.name} overrides {node.name}")
+            if node.name in SNAPSHOT_METHODS:
+                if not node.args.args or node.args.args[0].arg != "self" or node.decorator_list:
+                    raise Unsupported(f"{c.name}.{node.name}: not a plain method")
+                label = {"Tree": "tree", "TypedTree": "typed"}.get(c.name, c.name.lower()) + "_" + node.name
+                table.append((label, node.name, lock_skeleton(node, "self")))
+    for fname in sorted(DELEGATE_FUNCS):
+        fn = func_def(dot, fname)
+        if not fn.args.args or fn.args.args[0].arg != "tree":
+            raise Unsupported(f"{fname}: first parameter is not `tree`")
+        table.append(("dot_" + fname, fname, lock_skeleton(fn, "tree")))
+    have = {m for _, m, _ in table}
+    for _, _, paths in table:
+        for p in paths:
+            for e in p:
+                if isinstance(e, tuple) and e[1] not in have:
+                    raise Unsupported(f"call of snapshot operation {e[1]} which has no skeleton")
+    for m in SNAPSHOT_METHODS:
+        if m not in have:
+            raise Unsupported(f"snapshot operation {m} not found")
+    return table
 
 
 def ev_list(evs):
-    m = {"A": "Acq", "L": "Rel", "R": "Read", "C": "Call"}
-    return "[" + "; ".join(m[e] for e in evs) + "]"
+    m = {"A": "Acq", "L": "Rel", "R": "Read"}
+    return "[" + "; ".join(m[e] if isinstance(e, str) else f"Call {SNAPSHOT_METHODS.index(e[1])}" for e in evs) + "]"
 
 
 # ---------------------------------------------------------------------------
@@ -273,34 +472,37 @@ def main():
 
     # --- lock skeletons
     lines.append("")
-    lines.append("Inductive lev := Acq | Rel | Read | Call.")
-    progs = [
-        ("tree_copy", lock_skeleton(func_def(tcls, "copy"), "self")),
-        ("tree_copy_to", lock_skeleton(func_def(tcls, "copy_to"), "self")),
-        ("tree_filtered", lock_skeleton(func_def(tcls, "filtered"), "self")),
-        ("tree_to_dict_list", lock_skeleton(func_def(tcls, "to_dict_list"), "self")),
-        ("tree_save", lock_skeleton(func_def(tcls, "save"), "self")),
-        ("typed_save", lock_skeleton(func_def(ttcls, "save"), "self")),
-        ("tree_to_dotfile", lock_skeleton(func_def(tcls, "to_dotfile"), "self")),
-        ("dot_tree_to_dotfile", lock_skeleton(func_def(dot, "tree_to_dotfile"), "tree")),
-    ]
-    for nm, evs in progs:
-        lines.append(f"Definition prog_{nm} : list lev := {ev_list(evs)}.")
-    lines.append("Definition SNAPSHOT_PROGS : list (list Z * list lev) := [" +
-                 "; ".join(f"({text(nm)}, prog_{nm})" for nm, _ in progs) + "].")
-    # __enter__/__exit__ must be exactly acquire / release of self._lock
+    lines.append("(* lock skeletons: every control-flow path of every snapshot operation; [Call m] re-enters")
+    lines.append("   a snapshot operation whose method id is m = index in SNAPSHOT_METHOD_NAMES *)")
+    lines.append("Inductive lev := Acq | Rel | Read | Call (m : nat).")
+    table = snapshot_table([tree, typed, fs], dot)
+    lines.append("Definition SNAPSHOT_METHOD_NAMES : list (list Z) := [" + "; ".join(text(m) for m in SNAPSHOT_METHODS) + "].")
+    for nm, _, paths in table:
+        lines.append(f"Definition prog_{nm} : list (list lev) := [" + "; ".join(ev_list(p) for p in paths) + "].")
+    lines.append("Definition SNAPSHOT_PROGS : list (nat * list (list lev)) := [" +
+                 "; ".join(f"({SNAPSHOT_METHODS.index(m)}, prog_{nm})" for nm, m, _ in table) + "].")
+    lines.append("Definition SNAPSHOT_LABELS : list (list Z) := [" + "; ".join(text(nm) for nm, _, _ in table) + "].")
+    # __enter__/__exit__ must be exactly acquire / release of self._lock (no arguments: blocking, no timeout)
     for meth, call in (("__enter__", "acquire"), ("__exit__", "release")):
         fn = func_def(tcls, meth)
-        calls = [n for n in ast.walk(fn) if isinstance(n, ast.Call) and isinstance(n.func, ast.Attribute)]
-        ok = (len(calls) == 1 and calls[0].func.attr == call and isinstance(calls[0].func.value, ast.Attribute)
-              and calls[0].func.value.attr == "_lock")
+        calls = [n for n in ast.walk(fn) if isinstance(n, ast.Call)]
+        ok = (len(calls) == 1 and isinstance(calls[0].func, ast.Attribute) and calls[0].func.attr == call
+              and not calls[0].args and not calls[0].keywords
+              and isinstance(calls[0].func.value, ast.Attribute) and calls[0].func.value.attr == "_lock"
+              and isinstance(calls[0].func.value.value, ast.Name) and calls[0].func.value.value.id == "self"
+              and not any(isinstance(n, (ast.If, ast.Try, ast.For, ast.While, ast.With)) for n in ast.walk(fn)))
         lines.append(f"Definition LOCK_{call.upper()}_OK : bool := {'true' if ok else 'false'}.")
-    # the lock is a re-entrant lock
+    # the lock is a re-entrant lock, created once, in Tree.__init__, and never rebound anywhere in the package
     init_fn = func_def(tcls, "__init__")
-    rl = [n for n in ast.walk(init_fn) if isinstance(n, ast.Assign) and isinstance(n.targets[0], ast.Attribute)
-          and n.targets[0].attr == "_lock"]
-    is_rlock = (len(rl) == 1 and isinstance(rl[0].value, ast.Call) and isinstance(rl[0].value.func, ast.Attribute)
-                and rl[0].value.func.attr == "RLock")
+    def lock_stores(scope):
+        return [n for n in ast.walk(scope) if isinstance(n, (ast.Assign, ast.AnnAssign, ast.AugAssign))
+                and any(isinstance(x, ast.Attribute) and x.attr == "_lock" and isinstance(x.ctx, ast.Store) for x in ast.walk(n))]
+    rl = lock_stores(init_fn)
+    everywhere = sum(len(lock_stores(m)) for m in (tree, typed, fs, dot, parse("node.py")))
+    v = rl[0].value if len(rl) == 1 and isinstance(rl[0], ast.Assign) else None
+    is_rlock = (everywhere == 1 and isinstance(v, ast.Call) and not v.args and not v.keywords
+                and ((isinstance(v.func, ast.Attribute) and v.func.attr == "RLock" and isinstance(v.func.value, ast.Name)
+                      and v.func.value.id == "threading") or (isinstance(v.func, ast.Name) and v.func.id == "RLock")))
     lines.append(f"Definition LOCK_IS_RLOCK : bool := {'true' if is_rlock else 'false'}.")
 
     new = "\n".join(lines) + "\n"
